@@ -265,6 +265,9 @@ func (mc *c02Machine) actions(rt *rapid.T) map[string]func(*rapid.T) {
 		"runFailing": func(rt *rapid.T) {
 			feed := mc.mkFeed(rt, mc.baseN)
 			ks := sortedKeys(feed)
+			if len(ks) == 0 {
+				rt.Skip("the model has no inputs")
+			}
 			k := rapid.SampledFrom(ks).Draw(rt, "victim")
 			if rapid.Bool().Draw(rt, "missing") {
 				delete(feed, k)
@@ -460,7 +463,26 @@ func genBigDot(rt *rapid.T) operandNode {
 }
 
 func genOperandNode(rt *rapid.T) operandNode {
-	switch rapid.SampledFrom([]string{"conv", "conv", "conv", "bigdot", "bigdot", "dot", "rnn", "binary"}).Draw(rt, "family") {
+	switch rapid.SampledFrom([]string{"conv", "conv", "conv", "bigdot", "bigdot", "dot", "rnn", "binary", "shape", "move", "reduce", "unary", "unary", "constcast"}).Draw(rt, "family") {
+	case "shape":
+		c := c07Gen(rt)
+		return operandNode{c.node, c.inputs(), 1}
+	case "move":
+		c := c08Gen(rt)
+		return operandNode{c.node, c.inputs(), 1}
+	case "reduce":
+		c := c09Gen(rt)
+		return operandNode{c.node, []tensor.Tensor{cloneT(c.x)}, 1}
+	case "unary":
+		c := c10Gen(rt)
+		ins := []tensor.Tensor{cloneT(c.x)}
+		if c.op == "PRelu" {
+			ins = append(ins, cloneT(c.slope))
+		}
+		return operandNode{mkNode(c.op, nil, nil), ins, 1}
+	case "constcast":
+		c := c11Gen(rt)
+		return operandNode{c.node, cloneTs(c.ins), 1}
 	case "conv":
 		g := genConvGeom(rt)
 		if g.group == 2 {
